@@ -330,7 +330,7 @@ func TestVerif_C16(t *testing.T) {
 	}
 	w := newWorker(t, "C16")
 	defer w.finish()
-	if runMgrHistories(w, "C16", 4, 5) {
+	if runMgrHistories(w, "C16", 5, 7) {
 		return
 	}
 	runBScenariosW(w, "C16", []bScenario{
@@ -590,7 +590,7 @@ func TestVerif_C17(t *testing.T) {
 	}
 	w := newWorker(t, "C17")
 	defer w.finish()
-	if runMgrHistories(w, "C17", 4, 5) {
+	if runMgrHistories(w, "C17", 5, 7) {
 		return
 	}
 	runBScenariosW(w, "C17", []bScenario{
